@@ -1,4 +1,5 @@
-"""String slicing in queries vs Python, constants and parameters, on SQLite."""
+"""String slicing in queries vs Python, constants and parameters, on SQLite.  The only mismatches left are the forms of the recorded finding
+C25-SENTINEL (s[:-1], s[0:-1]: the omitted stop is represented by -1), see C25_slice_minus_one_KNOWN.py; exit 1 while it is present."""
 from pony.orm import *
 db = Database('sqlite', ':memory:')
 class P(db.Entity):
